@@ -46,6 +46,19 @@ CHECKS = {
        "strings; plus a property-level round-trip oracle run on the implementation alone.",
   note=COMMON_NOTE + "hex crate / core::fmt / from_str_radix are modelled as digit-list functions (incl. the accepted leading '+'). Multicast mc_key (AES wrap) setter and certification payloads without accessors are compared byte-wise only.",
   tech="machine-checked proof in Coq (exhaustive byte sweeps + LE/hex induction lemmas) + differential correspondence + round-trip oracle on the implementation", ref="6 C19"),
+ "C04": dict(
+  text="Coq theorems (Props/C04.v). The model returns Panic wherever the Rust code indexes, unwraps, overflows (checked build) or calls panic!. Under the shape invariant mac_ok (region id < 9; "
+       "dynamic plan: 16 slots, in-band channels, join channels defined, 9-byte mask; fixed plan: 9-byte masks and bounded join-channel bookkeeping; configured data rate an uplink data rate; "
+       "RX1 offset < 8), which holds for every freshly built MAC (sweep over the regenerated tables) and is KEPT by every operation: every MAC command of every CID with every payload is handled "
+       "without panic (C04_every_command, by cases over the command handler), hence every command stream and EVERY received byte string in Class A windows and Class C reception, in every activation "
+       "state, incl. JoinAccepts with any DLSettings/RxDelay/CFList (C04_every_received_frame); channel selection never panics for any random stream; a join request never panics; send panics only "
+       "inside prepare_buffer's two deliberate panic!s (application misuse: known finding) and otherwise keeps the invariant, so the device can transmit afterwards. Hangs: see C09 (a usable channel always "
+       "exists; progress; the degenerate-stream finding). PARTIAL: the two front-ends (nb_device state machine, async_device) are not modelled; they are driven exhaustively over an event alphabet. "
+       "Tied to the code by MAC histories enumerating every value of every field of every handled command (FOpts and port 0) and JoinAccept field classes in all regions with three sends afterwards, "
+       "the C08/C09/C11/channel-slot generators, and front-end event sequences exhaustive to depth 4/5 (nb_device) and over {timeout, authentic, garbage, radio error}^2 windows (async_device, Class C), "
+       "every output checked for PANIC/HANG under catch_unwind with a random-draw budget that covers every residue.",
+  note=COMMON_NOTE + "Found and repaired while proving: LinkADRReq ChMaskCntl=4 indexed bank 9 of the 9-byte mask (remote panic in every region). Overflow checks and debug assertions are enabled in the harness build.",
+  tech="machine-checked proof in Coq (invariant + totality of the whole receive and transmit path of the MAC model) + translator-regenerated tables + exhaustive-field MAC histories and exhaustive front-end event sequences under catch_unwind", ref="6 C04"),
  "C05": dict(
   text="Coq theorems (Props/C05.v): for ALL last < 2^32 and wire < 2^16, next_fcnt_down accepts with n iff n is the unique counter = wire (mod 2^16) with last < n <= last+16384 "
        "and n < 2^32 (bit-level lemmas + linear arithmetic, no enumeration); never backwards, no replay; the session model acts on a frame exactly under the reference rule "
